@@ -1,6 +1,7 @@
 import Splipy.Lemmas.C14Grid
 import Splipy.Lemmas.C14Proj
 import Splipy.Lemmas.C14Cubic
+import Splipy.Lemmas.C14Spec
 import Mathlib.Data.Rat.Floor
 
 /-!
@@ -508,6 +509,161 @@ theorem C14_cubic_FREE_knots (a b c d : K) (mid : List K) :
   have : pyDel ([a, a, a, a, b] ++ mid ++ [d, d, d, d]) 4 = .ok ([a, a, a, a] ++ mid ++ [d, d, d, d]) := by
     simpa using hd2
   exact this
+
+/-! ## The raw Gauss–Jordan model, the specification `B`, and Schoenberg–Whitney -/
+
+section Spec
+variable [IsStrictOrderedRing K]
+
+omit [FloorRing K] [IsStrictOrderedRing K] in
+/-- **The certificate never fails**: on a square system with a well-shaped right-hand side the
+certified solve used by every C14 model function IS the raw Gauss–Jordan model `Mat.solve` of
+`np.linalg.solve` (proved sound and complete in Lemmas/SolveSound.lean), and `invC` is `Mat.inv`.
+Hence all C14 theorems are statements about `Mat.solve`. -/
+theorem C14_solve_is_gauss_jordan (A B : Mat K) (n m : ℕ)
+    (hA : A.size = n ∧ ∀ i, i < n → (A.getD i #[]).size = n)
+    (hB : B.size = n ∧ ∀ i, i < n → (B.getD i #[]).size = m) :
+    solveC A B = Mat.solve A B ∧ invC A = Mat.inv A :=
+  ⟨solveC_eq_solve A B n m hA hB, invC_eq_inv A n hA⟩
+
+/-- **Curve interpolation in specification terms.**  For a valid basis (periodic or not) and every
+admissible parameter `t_i` (exact w.r.t. the knot tolerance; in the domain if non-periodic), the
+returned coefficients satisfy `Σ_l N_l(t_i) · c_l = x_i`, where `N_l = Basis.specRow` is the
+Cox–de Boor B-spline of the specification (the sum of the wrapped images for a periodic basis). -/
+theorem C14_interpolate_curve_spec {b : Basis K} (hv : b.Valid) {tol : K} (htol : 0 < tol)
+    (t : Option (List K)) (x c : Mat K) (h : interpolateCurve b tol t x = .ok c) :
+    ∃ ts, paramsOrGreville b t = .ok ts ∧ ts.length = b.numFunctions ∧ x.size = ts.length ∧
+      ∀ i < ts.length, b.Admissible tol (ts.getD i 0) → ∀ j < c.ncols,
+        ∑ l ∈ range b.numFunctions, b.specRow (ts.getD i 0) l * c.get l j = x.get i j := by
+  obtain ⟨ts, h1, h2, h3, h4⟩ := C14_interpolate_curve b tol t x c h
+  refine ⟨ts, h1, h2, h3, fun i hi hadm j hj => ?_⟩
+  rw [← h4 i hi j hj]
+  exact sum_congr rfl (fun l hl => by
+    rw [evaluate_getD_eq_specRow_c14 hv htol hadm (mem_range.mp hl)])
+
+/-- Non-periodic case spelled out with `splineVal`: the spline `Σ_l c_l B_l` of the specification
+takes the value `x_i` at `t_i` (right-continuous `B`, the limit from inside at the domain end). -/
+theorem C14_interpolate_curve_splineVal {b : Basis K} (hv : b.Valid) (hper : b.periodic = -1)
+    {tol : K} (htol : 0 < tol) (t : Option (List K)) (x c : Mat K)
+    (h : interpolateCurve b tol t x = .ok c) :
+    ∃ ts, paramsOrGreville b t = .ok ts ∧ ts.length = b.numFunctions ∧ x.size = ts.length ∧
+      ∀ i < ts.length, b.ExactAt tol (ts.getD i 0) → b.start ≤ ts.getD i 0 → ts.getD i 0 ≤ b.stop →
+        ∀ j < c.ncols,
+          splineVal (effSide b (ts.getD i 0) true) b.kn (b.order - 1) b.numFunctions
+            (fun l => c.get l j) (ts.getD i 0) = x.get i j := by
+  obtain ⟨ts, h1, h2, h3, h4⟩ := C14_interpolate_curve_spec hv htol t x c h
+  refine ⟨ts, h1, h2, h3, fun i hi hex hlo hhi j hj => ?_⟩
+  have hadm : b.Admissible tol (ts.getD i 0) :=
+    ⟨hex, fun _ => ⟨hlo, hhi⟩, fun h0 => by rw [hper] at h0; exact absurd h0 (by decide)⟩
+  rw [← h4 i hi hadm j hj]
+  unfold splineVal
+  exact sum_congr rfl (fun l _ => by rw [Basis.specRow_nonperiodic hper, mul_comm])
+
+/-- **The returned curve object evaluates to the data** (through C02): `Curve(basis, cp)` evaluated by
+the model's `SplineObject.evaluate` at the interpolation parameters gives back `x`. -/
+theorem C14_interpolate_curve_evaluate {b : Basis K} (hv : b.Valid) {tol : K} (htol : 0 < tol)
+    (t : Option (List K)) (x c : Mat K) (h : interpolateCurve b tol t x = .ok c) :
+    ∃ ts, paramsOrGreville b t = .ok ts ∧
+      ((∀ u ∈ ts, b.Admissible tol u) → ts ≠ [] →
+        ∃ res, (curveOf b c).evaluate tol [ts] true = .ok res ∧ res.shape = [ts.length, c.ncols] ∧
+          ∀ i < ts.length, ∀ j < c.ncols, res.get (i * c.ncols + j) = x.get i j) := by
+  obtain ⟨ts, h1, h2, h3, h4⟩ := C14_interpolate_curve_spec hv htol t x c h
+  refine ⟨ts, h1, fun hadm hne => ?_⟩
+  have hcsize : c.size = b.numFunctions := by
+    unfold interpolateCurve at h
+    simp only [bind, Except.bind, h1] at h
+    split at h
+    · exact absurd h (by simp [throw, throwThe, MonadExceptOf.throw])
+    · have := (solveC_ok h).1
+      rw [this]
+      unfold Mat.ncols
+      rw [row_colloc b tol ts 0 0 (List.length_pos_of_ne_nil hne), size_evaluate_c14]
+  obtain ⟨res, r1, r2, _, r4⟩ := Obj.evaluate1_spec_nonrational (o := curveOf b c) (b1 := b) rfl hv
+    (nc := c.ncols) (by unfold curveOf matTensor; rw [hcsize]) rfl htol hadm
+  refine ⟨res, r1, r2, fun i hi j hj => ?_⟩
+  rw [r4 i j hi hj, ← h4 i hi (hadm _ (by simp [List.getD_eq_getElem?_getD, hi])) j hj]
+  apply sum_congr rfl
+  intro l hl
+  congr 1
+  unfold curveOf
+  simp only
+  rw [get_matTensor c c.size c.ncols l j (by rw [hcsize]; exact mem_range.mp hl) hj]
+
+/-- **No solvability hypothesis (Schoenberg–Whitney), user parameters.**  Valid clamped non-periodic
+basis of order `p ≥ 2` with interior knot multiplicities `≤ p−1`; `n` exact parameters with
+`t₀ = start`, `t_{n−1} = end`, strictly increasing and nested with the supports
+(`τ_l < t_l < τ_{l+p}`); an `n × m` data matrix.  Then `curve_factory.interpolate` SUCCEEDS and the
+resulting spline of the specification passes through every point. -/
+theorem C14_interpolate_curve_nested {b : Basis K} (hv : b.Valid) (hper : b.periodic = -1)
+    (hp : 2 ≤ b.order) (hc0 : b.kn 0 = b.kn (b.order - 1))
+    (hc1 : b.kn b.numFunctions = b.kn (b.numFunctions + (b.order - 1)))
+    (hmult : ∀ i, 1 ≤ i → i < b.numFunctions → b.kn i < b.kn (i + (b.order - 1)))
+    {tol : K} (htol : 0 < tol) (ts : List K) (hlen : ts.length = b.numFunctions)
+    (hx : NestedPts b.kn (b.order - 1) b.numFunctions (fun l => ts.getD l 0))
+    (hex : ∀ l, l < b.numFunctions → b.ExactAt tol (ts.getD l 0))
+    (x : Mat K) (m : ℕ) (hxs : x.size = b.numFunctions ∧ ∀ i, i < b.numFunctions → (x.getD i #[]).size = m) :
+    ∃ c, interpolateCurve b tol (some ts) x = .ok c ∧
+      ∀ i < b.numFunctions, ∀ j < c.ncols,
+        splineVal (effSide b (ts.getD i 0) true) b.kn (b.order - 1) b.numFunctions
+          (fun l => c.get l j) (ts.getD i 0) = x.get i j := by
+  obtain ⟨c, hc⟩ := interpolateCurve_ok_of_nested hv hper hp hc0 hc1 hmult htol ts hlen hx hex x m hxs
+  refine ⟨c, hc, fun i hi j hj => ?_⟩
+  obtain ⟨ts', e1, _, _, e4⟩ := C14_interpolate_curve_splineVal hv hper htol (some ts) x c hc
+  have : ts' = ts := by unfold paramsOrGreville at e1; cases e1; rfl
+  subst this
+  obtain ⟨d1, d2⟩ := nested_in_domain hper _ hx i hi
+  exact e4 i (by omega) (hex i hi) d1 d2 j hj
+
+/-- **No solvability hypothesis, default Greville parameters.**  For a valid clamped non-periodic
+basis of order ≥ 2 with continuous splines (interior multiplicities ≤ p−1) whose Greville points are
+exact w.r.t. the knot tolerance, `curve_factory.interpolate(x, basis)` SUCCEEDS and the resulting
+spline passes through `x_i` at the `i`-th Greville abscissa. -/
+theorem C14_interpolate_curve_greville {b : Basis K} (hv : b.Valid) (hper : b.periodic = -1)
+    (hp : 2 ≤ b.order) (hc0 : b.kn 0 = b.kn (b.order - 1))
+    (hc1 : b.kn b.numFunctions = b.kn (b.numFunctions + (b.order - 1)))
+    (hmult : ∀ i, 1 ≤ i → i < b.numFunctions → b.kn i < b.kn (i + (b.order - 1)))
+    {tol : K} (htol : 0 < tol)
+    (hex : ∀ l, l < b.numFunctions → b.ExactAt tol (grevilleAbscissa b.kn (b.order - 1) l))
+    (x : Mat K) (m : ℕ) (hxs : x.size = b.numFunctions ∧ ∀ i, i < b.numFunctions → (x.getD i #[]).size = m) :
+    ∃ c, interpolateCurve b tol none x = .ok c ∧
+      ∀ i < b.numFunctions, ∀ j < c.ncols,
+        splineVal (effSide b (grevilleAbscissa b.kn (b.order - 1) i) true) b.kn (b.order - 1) b.numFunctions
+          (fun l => c.get l j) (grevilleAbscissa b.kn (b.order - 1) i) = x.get i j := by
+  have hg := sw_greville_eq b hp
+  set pts := Array.ofFn (n := b.numFunctions) (fun i => grevilleAbscissa b.kn (b.order - 1) i.val) with hpts
+  have hτ : Monotone b.kn := hv.kn_mono
+  have hn : b.order - 1 + 1 ≤ b.numFunctions := by
+    have := hv.order_le_nAll
+    have := Basis.numFunctions_of_nonperiodic hper
+    omega
+  have hlen : pts.toList.length = b.numFunctions := by rw [hpts]; simp
+  have hget : ∀ l, l < b.numFunctions → pts.toList.getD l 0 = grevilleAbscissa b.kn (b.order - 1) l := by
+    intro l hl
+    rw [hpts]
+    simp [List.getD_eq_getElem?_getD, hl]
+  have hG := greville_nestedPts b.kn hτ (b.order - 1) b.numFunctions (by omega) hn hc0 hc1 hmult
+  have hx : NestedPts b.kn (b.order - 1) b.numFunctions (fun l => pts.toList.getD l 0) :=
+    NestedPts.congr_c14 (by omega) hG hget
+  obtain ⟨c, hc, hval⟩ := C14_interpolate_curve_nested hv hper hp hc0 hc1 hmult htol pts.toList hlen hx
+    (fun l hl => by rw [hget l hl]; exact hex l hl) x m hxs
+  refine ⟨c, by rw [interpolateCurve_none b tol x pts hg]; exact hc, fun i hi j hj => ?_⟩
+  have := hval i hi j hj
+  rw [hget i hi] at this
+  exact this
+
+/-- Default Greville parameters without the exactness assumption: if distinct knots are at least
+`2(p−1)·tol` apart (so that `snap` cannot destroy the nesting), interpolation SUCCEEDS. -/
+theorem C14_interpolate_curve_greville_succeeds {b : Basis K} (hv : b.Valid) (hper : b.periodic = -1)
+    (hp : 2 ≤ b.order) (hc0 : b.kn 0 = b.kn (b.order - 1))
+    (hc1 : b.kn b.numFunctions = b.kn (b.numFunctions + (b.order - 1)))
+    (hmult : ∀ i, 1 ≤ i → i < b.numFunctions → b.kn i < b.kn (i + (b.order - 1)))
+    {tol : K} (htol : 0 < tol)
+    (hgap : ∀ i j, b.kn i < b.kn j → b.kn i + 2 * ((b.order - 1 : ℕ) : K) * tol ≤ b.kn j)
+    (x : Mat K) (m : ℕ) (hxs : x.size = b.numFunctions ∧ ∀ i, i < b.numFunctions → (x.getD i #[]).size = m) :
+    ∃ c, interpolateCurve b tol none x = .ok c :=
+  interpolateCurve_ok_greville hv hper hp hc0 hc1 hmult htol hgap x m hxs
+
+end Spec
 
 /-! ## Non-vacuity: the hypotheses are satisfiable (small rational data, evaluated by the kernel) -/
 
